@@ -91,6 +91,8 @@ class FakeSerial:
         if self.is_open:
             self.is_open = False
             _REGISTRY.pop(self.name, None)
+            if _REGISTRY.get(getattr(self, "alias", None)) is self:
+                _REGISTRY.pop(self.alias, None)  # type: ignore[attr-defined]
             for fd in (self._r, self._w):
                 with contextlib.suppress(OSError):
                     os.close(fd)
